@@ -17,33 +17,40 @@ def run_check(tier):
     quick = tier == "quick"
     r = vlib.tlc("MC_MsgPackFormat", timeout=900)
     chk.add_tlc("MC_MsgPackFormat", r)
-    cfg = mp.write_cfg("mc_save.cfg", "SPECIFICATION Spec\nCONSTANT MaxMembers = %d\nINVARIANTS EncoderConsistent DecodesBack DeviationsNeverShorter MapHeaderCounts Export\n" % (2 if quick else 4))
+    cfg = mp.write_cfg("mc_save.cfg", "SPECIFICATION Spec\nCONSTANT MaxMembers = %d\nINVARIANTS EncoderConsistent DecodesBack DeviationsNeverShorter MapHeaderCounts Export\n" % (2 if quick else 3))
     r = vlib.tlc("MC_SaveScript", cfg=cfg, timeout=3000, xmx="8g")
-    chk.add_tlc("MC_SaveScript", r, {"MaxMembers": 2 if quick else 4})
-    scen = r.printed("GEN")
-    rows = [{"id": "v%d" % i, "root": s["root"]} for i, s in enumerate(scen)]
+    chk.add_tlc("MC_SaveScript", r, {"MaxMembers": 2 if quick else 3})
     import os
-    sp = os.path.join(vlib.scratch(), "save_scn.ndjson")
-    vlib.write_ndjson(sp, rows)
-    obs = vlib.run_resumable([mp.harness(256), "save", sp], timeout=1800)
-    lines = []
-    for o in obs:
-        if "e" in o:
-            chk.fail("save %s: %s" % (rows[o["run"]]["id"], o["e"]), {"scenario": rows[o["run"]], "observed": o})
-            continue
-        o["root"] = rows[o["run"]]["root"]
-        lines.append(json.dumps(o))
-    checked, bad = vlib.validate_traces("Trace_SaveScript", lines)
-    byid = None
-    for b in bad:
-        if byid is None:
-            byid = {json.loads(l)["id"]: json.loads(l) for l in lines}
-        dev = None
-        if b["why"].startswith("dev:"):
-            dev = "+".join(DEVNAMES[x] for x in b["why"][4:].split("+"))
-        chk.fail("MsgPack save: %s" % b["why"], {"record": byid[b["id"]], "verdict": b}, dev=dev)
-    chk.add_cases(len(rows), distinct_keys=(json.dumps(x["root"]) for x in rows), validated=checked)
-    chk.sample({"script": rows[len(rows) // 2]["root"], "bytes": json.loads(lines[len(lines) // 2])["mem"]})
+    base = 0
+    sampled = False
+    for scen in r.printed_chunks("GEN", 40000):              # streamed: bounded memory whatever MaxMembers is
+        rows = [{"id": "v%d" % (base + i), "root": s["root"]} for i, s in enumerate(scen)]
+        base += len(rows)
+        sp = os.path.join(vlib.scratch(), "save_scn.ndjson")
+        vlib.write_ndjson(sp, rows)
+        obs = vlib.run_resumable([mp.harness(256), "save", sp], timeout=1800)
+        os.unlink(sp)
+        lines = []
+        for o in obs:
+            if "e" in o:
+                chk.fail("save %s: %s" % (rows[o["run"]]["id"], o["e"]), {"scenario": rows[o["run"]], "observed": o})
+                continue
+            o["root"] = rows[o["run"]]["root"]
+            lines.append(json.dumps(o))
+        checked, bad = vlib.validate_traces("Trace_SaveScript", lines)
+        byid = None
+        for b in bad:
+            if byid is None:
+                byid = {json.loads(l)["id"]: json.loads(l) for l in lines}
+            dev = None
+            if b["why"].startswith("dev:"):
+                dev = "+".join(DEVNAMES[x] for x in b["why"][4:].split("+"))
+            chk.fail("MsgPack save: %s" % b["why"], {"record": byid[b["id"]], "verdict": b}, dev=dev)
+        chk.add_cases(len(rows), distinct_keys=(json.dumps(x["root"]) for x in rows), validated=checked)
+        if not sampled and lines:
+            chk.sample({"script": rows[len(rows) // 2]["root"], "bytes": json.loads(lines[len(lines) // 2])["mem"]})
+            sampled = True
+        del rows, obs, lines
     sweep_leg(chk, quick)
     return chk.finish()
 
